@@ -11,7 +11,7 @@ for d in "$@"; do
 import sys
 from sa.common import Report
 from sa.strabs.model import Program
-from sa.props import c01, c05, c11, c12, c13, c17, c18
+from sa.props import c01, c05, c09, c11, c12, c13, c17, c18
 import ast, os
 from sa import common
 def wsgi_gc():
